@@ -25,6 +25,7 @@ DEF_CLAUSES = {
     "def.wrapped_chain": {"C14"},
     "def.registered_count": {"C18"},
     "def.verdict_ne_lists": {"C18", "C04", "C01", "C02"},
+    "def.verdict_ne_reference": {"C01", "C02", "C03", "C04", "C08"},
     "def.view": {"C18"},
     "proto.no_expected_step": set(),
 }
@@ -69,8 +70,11 @@ def hand_eval(view_member: dict, inv_oncall: List[int], truth: Dict[int, bool]) 
     return ("ok",)
 
 
+ROLE_PROPS = {"pre": {"C01", "C04"}, "post": {"C02", "C04"}, "inv": {"C03", "C04"}, "snap": {"C08", "C04"}}
+
+
 def verdicts_unit(res: CheckResult, hist: dict, expected: Dict[int, dict], ic: Any, rng: random.Random,
-                  max_assign: int = 64) -> int:
+                  max_assign: int = 64, lists_from: str = "impl") -> int:
     """HandEvalAgrees: verdict from the introspected lists (read from the implementation through the documented
     interface; on a conforming history they are the specification's lists) vs verdict of the real call."""
     rt = D.DefRuntime(hist, ic)
@@ -80,11 +84,20 @@ def verdicts_unit(res: CheckResult, hist: dict, expected: Dict[int, dict], ic: A
         if rt.run_step(k) != "ok":
             break
         last = k
+    nst = len(hist["cls"])
+    if last == nst:
+        # post-hoc decorations of members of the classes created above
+        for i, ph in enumerate(hist.get("posthoc", []), 1):
+            if rt.run_posthoc(ph) != "ok":
+                break
+            last = nst + i
     if last == 0 or last not in expected:
         return 0
     exp = expected[last]
-    for j in range(1, last + 1):
-        view = rt.view(j)
+    for j in range(1, min(last, nst) + 1):
+        # lists_from = "model": the REFERENCE lists of the specification judge the call (used where the lists of the
+        # implementation are not the expected ones: is the effective contract still what the property says?)
+        view = rt.view(j) if lists_from == "impl" else D.normalise_model_view(exp["views"][j - 1], hist["names"])
         cls = rt.classes[j]
         for name, mv in view["members"].items():
             if mv["kind"] not in ("fn", "prop", "static", "cls"):
@@ -132,6 +145,21 @@ def verdicts_unit(res: CheckResult, hist: dict, expected: Dict[int, dict], ic: A
                 except Exception as exc:  # noqa
                     got = ("exception", type(exc).__name__)
                 n += 1
+                if got != want and lists_from == "model":
+                    roles = {hist["con"][v[1] - 1]["role"] for v in (want, got)
+                             if v[0] == "violation" and 1 <= v[1] <= len(hist["con"])}
+                    props = set().union(*[ROLE_PROPS.get(r, set()) for r in roles]) if roles else {"C04"}
+                    what = "history {} class {} member {}: the effective contracts of the specification say {} but " \
+                           "the call gives {} under {}".format(hist["hid"], j, name, want, got, rt.truth)
+                    if res.prop in props:
+                        res.violation("def.verdict_ne_reference", what,
+                                      {"signature": "def.verdict_ne_reference", "history": hist, "class": j,
+                                       "member": name, "truth": {str(c): v for c, v in rt.truth.items()},
+                                       "reference_lists": mv, "want": want, "got": got})
+                    else:
+                        res.note("nonconformance outside {} (clause=def.verdict_ne_reference -> {})".format(
+                            res.prop, ",".join(sorted(props))))
+                    return n
                 if got != want:
                     res.violation("def.verdict_ne_lists",
                                   "history {} class {} member {}: lists say {} but the call gives {} under {}".format(
@@ -194,6 +222,10 @@ def def_unit(res: CheckResult, name: str, hists: List[dict], ic: Any, verdicts: 
                     # C18's own oracle does not need the specification's lists: what the implementation lists must
                     # explain what the implementation does, also where the lists are not the ones expected
                     nverd += verdicts_unit(res, h, exp[h["hid"]], ic, rng)
+                elif verdicts and not d0["clause"].startswith("proto.") and d0["clause"] != "def.rejected_wrongly":
+                    # the lists are not the expected ones: do the calls still obey the effective contracts of the
+                    # specification?  (C01 / C02 / C03 / C04 speak of verdicts, not of lists)
+                    nverd += verdicts_unit(res, h, exp[h["hid"]], ic, rng, lists_from="model")
         elif verdicts:
             nverd += verdicts_unit(res, h, exp[h["hid"]], ic, rng)
         if len(res.samples) < 3 and nrun % 211 == 1:
